@@ -234,7 +234,7 @@ def stub_cases(tier):
     out = []
     for j in range(k):
         rm = 0.84 + (0.999 - 0.84) * j / (k - 1)
-        out.append({"rhomax": round(rm, 6), "base": ("T_HOO", "HCT", "VHCT")[j % 3], "T": T, "seed": j,
+        out.append({"rhomax": round(rm, 6), "base": ("T_HOO", "HCT", "VHCT")[j % 3], "T": T * 3 if j % 12 == 5 else T, "seed": j,
                     "numax": (1.0, 0.5, 2.0)[j % 3]})
     return out
 
